@@ -440,7 +440,13 @@ Proof. vm_compute. reflexivity. Qed.
 Definition w_auto_bracket : bytes := B "CREATE TABLE t ([id] integer PRIMARY KEY AUTOINCREMENT, b int)".
 Definition w_auto_phantom : bytes := B "CREATE TABLE t (id integer PRIMARY KEY NOT NULL CHECK (autoincrement_x > 0), autoincrement_x int)".
 Lemma w_autoinc : autoinc w_auto_bracket [B "id"; B "b"] [B "id"] = AutoNone /\
-                  autoinc w_auto_phantom [B "id"; B "autoincrement_x"] [B "id"] = AutoOk (B "id").
+                  autoinc_old w_auto_phantom [B "id"; B "autoincrement_x"] [B "id"] = AutoOk (B "id").
+Proof. vm_compute. split; reflexivity. Qed.
+(** since the fix of the tail of reAutoinc the letters later in the definition are not taken for the keyword;
+    the grammar's own forms are: PRIMARY KEY DESC ON CONFLICT REPLACE AUTOINCREMENT *)
+Definition w_auto_full : bytes := B "CREATE TABLE t (id integer NOT NULL PRIMARY KEY desc ON CONFLICT replace AUTOINCREMENT, b int)".
+Lemma w_autoinc_fixed : autoinc w_auto_phantom [B "id"; B "autoincrement_x"] [B "id"] = AutoNone /\
+                        autoinc w_auto_full [B "id"; B "b"] [B "id"] = AutoOk (B "id").
 Proof. vm_compute. split; reflexivity. Qed.
 
 (** partial index predicate *)
@@ -697,8 +703,12 @@ Proof.
   change ([ch_sp] ++ K_KEY ++ [ch_sp] ++ K_AUTOINCREMENT ++ rest) with (ch_sp :: K_KEY ++ ch_sp :: K_AUTOINCREMENT ++ rest).
   cbn [plus_space]. change (is_space ch_sp) with true. cbn iota.
   change (skip_while is_space (K_KEY ++ ch_sp :: K_AUTOINCREMENT ++ rest)) with (K_KEY ++ ch_sp :: K_AUTOINCREMENT ++ rest).
-  rewrite lit_ci_self. change (is_space ch_sp) with true. cbn [andb].
-  destruct (K_AUTOINCREMENT ++ rest) eqn:E; [discriminate|]. cbn [has_ci]. rewrite <- E, lit_ci_self. reflexivity.
+  rewrite lit_ci_self.
+  assert (ends_autoinc (ch_sp :: K_AUTOINCREMENT ++ rest) = true) as He.
+  { unfold ends_autoinc. cbn [plus_space]. change (is_space ch_sp) with true. cbn iota.
+    change (skip_while is_space (K_AUTOINCREMENT ++ rest)) with (K_AUTOINCREMENT ++ rest).
+    rewrite lit_ci_self. reflexivity. }
+  unfold tail_from. rewrite He. reflexivity.
 Qed.
 
 Lemma has_pk_autoinc_prefix x s : forallb not_comma x = true -> pk_autoinc_at s = true -> has_pk_autoinc (x ++ s) = true.
